@@ -784,3 +784,62 @@ CLIMAT_CODES = {1: "malformed record", 320: "cmr-matrix wrote a matrix although 
                 321: "cmr-matrix failed on a well-formed input", 322: "cmr-matrix wrote no output",
                 323: "cmr-matrix output does not follow the documented format",
                 324: "cmr-matrix output is not the requested submatrix / transpose / support of the input"}
+
+
+# ---------- pure leaf functions (api `leaf`): fn args ----------
+I32MIN, I32MAX = -2147483648, 2147483647
+HR = 9223372036854775807 // 8
+
+
+def leaf_lines(rng, fns, count):
+    """defined calls only (no q = INT_MIN, no element index beyond int): boundary values plus random ones"""
+    out = []
+    small = list(range(-7, 8))
+    big32 = [I32MIN + 1, I32MIN + 2, -65537, -4, -3, -2, -1, 0, 1, 2, 3, 4, 5, 6, 65536, I32MAX - 1, I32MAX]
+    if 0 in fns or 1 in fns:
+        for fn in (0, 1):
+            if fn not in fns:
+                continue
+            for p in small + big32 + [I32MIN]:
+                for q in small + [I32MAX, I32MIN + 1, 9, -9]:
+                    out.append("%d %d %d" % (fn, p, q))
+            for _ in range(count):
+                p = rng.choice(big32) if rng.below(4) == 0 else rng.below(2 ** 32) - 2 ** 31
+                q = rng.choice([2, 3, -3, -2, 0, 1, -1, 5]) if rng.below(2) else rng.below(2 ** 32) - 2 ** 31
+                if q == I32MIN:
+                    q = 3
+                out.append("%d %d %d" % (fn, p, q))
+    if 2 in fns:
+        M = 2 * HR - 1
+        vals = [0, 1, -1, HR - 1, HR, HR + 1, -(HR - 1), -HR, -HR - 1, M, -M, M + 1, -M - 1, 2 * M, -2 * M, 3 * (HR - 1), -3 * (HR - 1),
+                2 * (HR - 1), -2 * (HR - 1), 7 * HR, -(2 ** 63), 9223372036854775807 - HR]
+        for v in vals:
+            out.append("2 %d" % v)
+        for _ in range(count):
+            k = rng.below(4)
+            if k == 0:
+                v = rng.below(2 * HR) - HR
+            elif k == 1:
+                v = 3 * (rng.below(2 * HR - 1) - HR + 1)
+            elif k == 2:
+                v = (rng.below(2 * HR - 1) - HR + 1) + rng.choice([-1, 1]) * (rng.below(2 * HR - 1) - HR + 1)
+            else:
+                v = rng.choice(vals) + rng.below(7) - 3
+            v = max(-(2 ** 63), min(v, 9223372036854775807 - HR))
+            out.append("2 %d" % v)
+    for fn in (3, 6, 8):
+        if fn in fns:
+            for e in small + big32 + [I32MIN]:
+                out.append("%d %d" % (fn, e))
+    for fn, lo, hi in ((4, 0, I32MAX), (5, 0, I32MAX - 1), (7, I32MIN, -1), (9, 1, I32MAX), (10, I32MIN + 1, I32MAX)):
+        if fn in fns:
+            for e in [lo, lo + 1, lo + 2, hi - 1, hi] + [x for x in small + big32 if lo <= x <= hi]:
+                out.append("%d %d" % (fn, e))
+            for _ in range(count // 4):
+                out.append("%d %d" % (fn, lo + rng.below(hi - lo + 1)))
+    return out
+
+
+LEAF_CODES = {1: "malformed record", 340: "call is undefined behaviour by the translated C text",
+              341: "function translated from the C text and compiled function disagree (translator / semantics)",
+              342: "leaf function violates its specification"}
